@@ -142,7 +142,15 @@ func find(out, prefix string) (string, bool) {
 
 func (e *eng) envCase(r layRow, i int) {
 	d := e.env.Sub("env")
-	v := func(l int) string { return fmt.Sprintf("v%d", r.val(l)) }
+	// "regardless of the values involved": in every third row with at least two defining levels the
+	// winning level's value is the empty string (a lower level's value must not show through it)
+	emptyWin := i%3 == 1 && len(r.Defs) >= 2 && r.Expect != 0
+	v := func(l int) string {
+		if emptyWin && r.val(l) == r.Expect {
+			return ""
+		}
+		return fmt.Sprintf("v%d", r.val(l))
+	}
 	var y strings.Builder
 	// the context's VARIABLES are not environment: with or without a context env level the task runs
 	// in a context whose variables name X and UNTOUCHED (every other row)
@@ -201,7 +209,7 @@ func (e *eng) envCase(r layRow, i int) {
 	os.Unsetenv("X")
 	res := e.run(d, extra, "--raw", target)
 	want := ""
-	if r.Expect != 0 {
+	if r.Expect != 0 && !emptyWin {
 		want = fmt.Sprintf("v%d", r.Expect)
 	}
 	detail := map[string]interface{}{"yaml": y.String(), "parent_env": extra, "target": target, "stdout": res.Stdout, "stderr": tailS(res.Stderr, 500), "exit": res.Exit, "model": r}
